@@ -226,16 +226,20 @@ func init() {
 	}
 }
 
-// condIsNilTest: the condition compares something with nil (x != nil, x.Has != nil || x.Schema != nil)
+// condIsNilTest: the condition is made of nil comparisons only (x != nil, x.Has != nil || x.Schema != nil);
+// a conjunct that tests anything else (a length, a zero value) makes it a zero test
 func condIsNilTest(e ast.Expr) bool {
-	found := false
-	ast.Inspect(e, func(n ast.Node) bool {
-		if b, ok := n.(*ast.BinaryExpr); ok && b.Op == token.NEQ {
-			if id, ok := b.Y.(*ast.Ident); ok && id.Name == "nil" {
-				found = true
-			}
+	switch x := e.(type) {
+	case *ast.ParenExpr:
+		return condIsNilTest(x.X)
+	case *ast.BinaryExpr:
+		switch x.Op {
+		case token.LOR, token.LAND:
+			return condIsNilTest(x.X) && condIsNilTest(x.Y)
+		case token.NEQ:
+			id, ok := x.Y.(*ast.Ident)
+			return ok && id.Name == "nil"
 		}
-		return true
-	})
-	return found
+	}
+	return false
 }
